@@ -163,6 +163,19 @@ class Activated(nn.Module):
         return torch.sigmoid(self.c1(F.relu(self.c0(x))))
 
 
+class WithModules(nn.Module):
+    """activation and pooling written as sub-modules: PIT does not replace them, the wrapper SHARES them with the user's model"""
+    def __init__(self):
+        super().__init__()
+        self.c0 = nn.Conv1d(2, 2, 1)
+        self.act = nn.ReLU()
+        self.pool = nn.AdaptiveAvgPool1d(1)
+        self.head = nn.Conv1d(2, 1, 1)
+
+    def forward(self, x):
+        return self.head(self.pool(self.act(self.c0(x))))
+
+
 class ConcatOutput(nn.Module):
     """the network output IS a channel concatenation: both operands are tied to the output width"""
     def __init__(self):
@@ -225,6 +238,7 @@ NETS = {
     'depthwise1d': (Depthwise1d, (1, 2, 2), {'c0': 'free', 'dw0': '=c0', 'dw1': '=c0', 'head': 'frozen'}, {'c0': None, 'dw0': ['c0'], 'dw1': ['c0'], 'head': ['c0']}),
     'user-placed': (UserPlaced, (1, 2, 2), {'c0': 'free'}, {'c0': None, 'c1': ['c0']}),
     'temporal': (Temporal, (1, 1, 4), {'c0': 'free', 'tc': 'free', 'head': 'frozen'}, {'c0': None, 'tc': ['c0'], 'head': ['tc']}),
+    'with-modules': (WithModules, (1, 2, 2), {'c0': 'free', 'head': 'frozen'}, {'c0': None, 'head': ['c0']}),
 }
 # architectures reported by seeding agents as failures of the UNCHANGED tree (round 4); served by their own harness entries (see HARNESSES)
 EXTRA_NETS = {
@@ -266,7 +280,7 @@ def _graph_facts(H, model):
     H.observe('calculators', [(n, H.type_name(m.input_features_calculator)) for n, m in mod.named_modules() if isinstance(m, PITModule) and hasattr(m, 'out_features_masker')])
 
 
-def h_import(H, net, training, fold_bn, autoconvert=True):
+def h_import(H, net, training, fold_bn, autoconvert=True, mixed=()):
     """C07 on whole models: PIT(model) computes the function of `model` (eval mode) and leaves the user's model as it found it"""
     cls, shape, maskers, feeds = NETS[net]
     user = cls()
@@ -275,11 +289,15 @@ def h_import(H, net, training, fold_bn, autoconvert=True):
     user.eval()
     y0 = user(x)
     user.train(training)
+    for name in mixed:
+        # a user model in MIXED mode (a frozen / deliberately active sub-module): sub-modules PIT does not replace are shared with the wrapper
+        user.get_submodule(name).training = not training
     flags = [m.training for m in user.modules()]
     model = PIT(user, input_example=torch.zeros(*shape), fold_bn=fold_bn, autoconvert_layers=autoconvert, **PIT_KWARGS.get(net, {}))
     _graph_facts(H, model)
     H.ensure('[C07] import:user-model-keeps-its-training-mode', [m.training for m in user.modules()] == flags)
-    H.ensure('[C07] import:wrapper-keeps-the-training-mode-it-found', all(m.training == training for m in model.modules()))
+    if not mixed:
+        H.ensure('[C07] import:wrapper-keeps-the-training-mode-it-found', all(m.training == training for m in model.modules()))
     now = dict(list(user.named_parameters()) + list(user.named_buffers()))
     H.ensure('[C07] import:user-parameters-and-statistics-untouched', all(H.eq(H.elements(now[k]), v) for k, v in vals.items()))
     model.eval()
@@ -400,6 +418,16 @@ def h_search_export(H, net):
     H.ensure('[C18] cost:switching-the-specification-and-back-restores-the-cost', H.eq(H.scalar(model.cost), cost))
     # C18: exporting is an observer of the NAS model
     H.ensure('export:model-output-unchanged-by-export', H.eq(model(x), y_nas))
+    # ... also of a model in MIXED mode (training, with some sub-modules deliberately kept in eval mode - frozen layers): every flag as it was
+    model.train()
+    k = 0
+    for m in model.seed.modules():
+        k += 1
+        if k % 2 == 0:
+            m.training = False
+    flags = [m.training for m in model.modules()]
+    model.export()
+    H.ensure('[C18] export:training-flag-of-every-sub-module-unchanged-in-mixed-mode', [m.training for m in model.modules()] == flags)
 
 
 PROPERTY = {}
@@ -416,8 +444,10 @@ HARNESSES = [
     dict(name='whole-import', bounded='enumerated architectures (contracts/whole_pit.py NETS); weights, statistics, masks, inputs symbolic', fn='h_import', property=['C07', 'C08', 'C11'], functions=_FUNCS,
          quick=[dict(net=n, training=t, fold_bn=f) for n, t, f in (('chain', True, False), ('chain', False, True), ('residual', True, False), ('residual-input', False, False),
                                                                    ('concat', True, False), ('depthwise2d', False, False), ('activated', True, False), ('temporal', True, False), ('concat-fixed', False, False), ('concat-time', True, False), ('depthwise1d', False, False))] +
-               [dict(net='user-placed', training=False, fold_bn=f, autoconvert=a) for f in _B for a in _B],
+               [dict(net='user-placed', training=False, fold_bn=f, autoconvert=a) for f in _B for a in _B] +
+               [dict(net='with-modules', training=t, fold_bn=False, mixed=mx) for t in _B for mx in ((), ('act',), ('act', 'pool'))],
          thorough=[dict(net=n, training=t, fold_bn=f) for n in _MAIN for t in _B for f in _B] +
+                  [dict(net='with-modules', training=t, fold_bn=f, mixed=mx) for t in _B for f in _B for mx in (('act',), ('pool',), ('act', 'pool'))] +
                   [dict(net='user-placed', training=t, fold_bn=f, autoconvert=False) for f in _B for t in _B], timeout=120),
     dict(name='whole-search-export', bounded='enumerated architectures (contracts/whole_pit.py NETS); weights, statistics, masks, inputs symbolic', fn='h_search_export', property=['C01', 'C09', 'C08', 'C18', 'C04'], functions=_FUNCS,
          quick=[dict(net=n) for n in _MAIN], thorough=[dict(net=n) for n in _MAIN], timeout=120),
